@@ -153,7 +153,17 @@ func c03History(t *testing.T, rng *rand.Rand) (viols [][2]string, stats map[stri
 				pr := rng.Intn(3) == 0
 				step = fmt.Sprintf("leave(self,%d,prune=%v)", claim, pr)
 				nd.NotifyMsg(wire.Encode(wire.Leave, &wire.MsgLeave{LTime: claim, Node: "self", Prune: pr}))
-				if rng.Intn(3) == 0 && claim < math.MaxUint64-10 {
+				if rng.Intn(4) == 0 && claim < math.MaxUint64-100 {
+					// a second, newer claim right behind the first (no quiescence in between: the refutation
+					// of the first may still be on its way); the newer one has to be refuted as well
+					// (at least 2 newer: the first refutation carries the first claim's time + 1, and a claim
+					// equal to the node's own latest join is not a newer claim)
+					claim += 2 + uint64(rng.Intn(20))
+					pr2 := rng.Intn(3) == 0
+					nd.NotifyMsg(wire.Encode(wire.Leave, &wire.MsgLeave{LTime: claim, Node: "self", Prune: pr2}))
+					step += fmt.Sprintf("+leave(self,%d,prune=%v)", claim, pr2)
+					stats["claims_followed_by_a_newer_claim_at_once"]++
+				} else if rng.Intn(3) == 0 && claim < math.MaxUint64-10 {
 					// a state sync lands right behind the claim (no quiescence in between: the refutation
 					// the claim started may not have run yet); the peer already knows a newer status time
 					// of this node, which must not keep the refutation from going out
